@@ -182,6 +182,255 @@ def gen_h264(rng):
     return r
 
 
+# ---------------------------------------------------------------- H.265
+def gen_ptl(rng, r, max_sub):
+    def prof(si):
+        r[K(110, si)] = rng.randint(0, 3)
+        r[K(111, si)] = flag(rng)
+        r[K(112, si)] = rng.choice([1, 2, 3, 4, 5, 9, rng.randint(0, 31)])
+        r[K(113, si)] = rng.randrange(2 ** 32)
+        r[K(114, si)] = rng.randint(0, 15)
+        r[K(115, si)] = rng.choice([0, rng.randrange(2 ** 43)])
+        r[K(116, si)] = flag(rng)
+    prof(0)
+    r[K(117, 0)] = rng.choice([30, 60, 90, 93, 120, 123, 150, 153, 156, 180, 183, 186])
+    for i in range(max_sub):
+        pp, lp = flag(rng), flag(rng)
+        r[K(118, i)], r[K(119, i)] = pp, lp
+        if pp:
+            prof(i + 1)
+        if lp:
+            r[K(117, i + 1)] = rng.randint(0, 255)
+
+
+def gen_hrd265(rng, r, q, max_sub, common=True):
+    nal = vcl = sub = 0
+    if common:
+        nal, vcl = flag(rng, 0.6), flag(rng, 0.4)
+        r[K(220, q)], r[K(221, q)] = nal, vcl
+        if nal or vcl:
+            sub = flag(rng, 0.4)
+            r[K(222, q)] = sub
+            if sub:
+                r[K(223, q)] = rng.randint(0, 255)
+                r[K(224, q)] = rng.randint(0, 31)
+                r[K(225, q)] = flag(rng)
+                r[K(226, q)] = rng.randint(0, 31)
+            r[K(227, q)] = rng.randint(0, 15)
+            r[K(228, q)] = rng.randint(0, 15)
+            if sub:
+                r[K(229, q)] = rng.randint(0, 15)
+            for k in (230, 231, 232):
+                r[K(k, q)] = rng.randint(0, 31)
+    for i in range(max_sub + 1):
+        g = flag(rng)
+        r[K(233, q * 8 + i)] = g
+        cvs = 1 if g else flag(rng)
+        if not g:
+            r[K(234, q * 8 + i)] = cvs
+        low = 0
+        if cvs:
+            r[K(235, q * 8 + i)] = ue_sample(rng, 2047)
+        else:
+            low = flag(rng)
+            r[K(236, q * 8 + i)] = low
+        cnt = 0
+        if not low:
+            cnt = rng.choice([0, 0, 1, 2, rng.randint(0, 31)])
+            r[K(237, q * 8 + i)] = cnt
+        for t, on in ((0, nal), (1, vcl)):
+            if on:
+                for c in range(cnt + 1):
+                    base = ((q * 8 + i) * 2 + t) * 64 + c
+                    for f in range(4):
+                        r[K(240 + f, base)] = ue_sample(rng, 2 ** 32 - 2)
+                    r[K(244, base)] = flag(rng)
+
+
+def gen_slo(rng, r, max_sub):
+    present = flag(rng)
+    r[K(133)] = present
+    for i in (range(max_sub + 1) if present else [max_sub]):
+        r[K(134, i)] = rng.randint(0, 16)
+        r[K(135, i)] = rng.randint(0, 16)
+        r[K(136, i)] = ue_sample(rng, 2 ** 32 - 2)
+
+
+def gen_h265(rng):
+    r = {}
+    r[K(101)] = 33
+    r[K(102)] = rng.choice([0, 0, rng.randint(0, 62)])
+    r[K(103)] = rng.randint(1, 7)
+    r[K(104)] = rng.randint(0, 15)
+    max_sub = rng.choice([0, 0, 1, 2, rng.randint(0, 6)])
+    r[K(105)] = max_sub
+    r[K(106)] = flag(rng)
+    gen_ptl(rng, r, max_sub)
+    r[K(120)] = ue_sample(rng, 15)
+    chroma = rng.randint(0, 3)
+    r[K(121)] = chroma
+    sep = 0
+    if chroma == 3:
+        sep = flag(rng)
+        r[K(122)] = sep
+    log2cb = rng.randint(0, 3)
+    unit = 1 << (log2cb + 3)
+    w = unit * rng.choice([1, 2, rng.randint(1, 16888 // unit), ue_sample(rng, 16888 // unit - 1) + 1])
+    h = unit * rng.choice([1, 2, rng.randint(1, 16888 // unit), ue_sample(rng, 16888 // unit - 1) + 1])
+    r[K(123)], r[K(124)] = w, h
+    cf = flag(rng, 0.6)
+    r[K(125)] = cf
+    if cf:
+        sw = 2 if chroma in (1, 2) and not sep else 1
+        sh = 2 if chroma == 1 and not sep else 1
+        tx = rng.choice([0, 1, rng.randint(0, (w - 1) // sw), ue_sample(rng, (w - 1) // sw)])
+        ty = rng.choice([0, 1, rng.randint(0, (h - 1) // sh), ue_sample(rng, (h - 1) // sh)])
+        l, t = rng.randint(0, tx), rng.randint(0, ty)
+        r[K(126)], r[K(127)], r[K(128)], r[K(129)] = l, tx - l, t, ty - t
+    r[K(130)] = rng.randint(0, 8)
+    r[K(131)] = rng.randint(0, 8)
+    r[K(132)] = rng.randint(0, 12)
+    gen_slo(rng, r, max_sub)
+    r[K(137)] = log2cb
+    r[K(138)] = rng.randint(0, 3)
+    r[K(139)] = rng.randint(0, 3)
+    r[K(140)] = rng.randint(0, 3)
+    r[K(141)] = rng.randint(0, 4)
+    r[K(142)] = rng.randint(0, 4)
+    se = flag(rng, 0.4)
+    r[K(143)] = se
+    if se:
+        sp = flag(rng, 0.7)
+        r[K(144)] = sp
+        if sp:
+            for s_ in range(4):
+                for m in range(0, 6, 3 if s_ == 3 else 1):
+                    pm = flag(rng)
+                    r[K(145, s_ * 8 + m)] = pm
+                    if not pm:
+                        r[K(146, s_ * 8 + m)] = rng.randint(0, m // 3 if s_ == 3 else m)
+                    else:
+                        if s_ > 1:
+                            r[K(147, s_ * 8 + m)] = rng.randint(-7, 247)
+                        for i in range(min(64, 1 << (4 + 2 * s_))):
+                            r[K(148, (s_ * 8 + m) * 64 + i)] = rng.choice([0, rng.randint(-128, 127), rng.randint(-3, 3)])
+    r[K(149)] = flag(rng)
+    r[K(150)] = flag(rng)
+    pcm = flag(rng, 0.3)
+    r[K(151)] = pcm
+    if pcm:
+        r[K(152)] = rng.randint(0, 15)
+        r[K(153)] = rng.randint(0, 15)
+        r[K(154)] = rng.randint(0, 2)
+        r[K(155)] = rng.randint(0, 2)
+        r[K(156)] = flag(rng)
+    nrps = rng.choice([0, 1, 2, 3, rng.randint(0, 64)])
+    r[K(157)] = nrps
+    for i in range(nrps):
+        nn = rng.choice([0, 1, 2, rng.randint(0, 16)])
+        npos = rng.choice([0, 0, 1, rng.randint(0, 16 - nn)])
+        r[K(163, i)], r[K(164, i)] = nn, npos
+        for j in range(nn):
+            r[K(165, i * 32 + j)] = ue_sample(rng, 32767)
+            r[K(166, i * 32 + j)] = flag(rng)
+        for j in range(npos):
+            r[K(167, i * 32 + j)] = ue_sample(rng, 32767)
+            r[K(168, i * 32 + j)] = flag(rng)
+    lt = flag(rng, 0.3)
+    r[K(169)] = lt
+    if lt:
+        n = rng.choice([0, 1, 2, rng.randint(0, 32)])
+        r[K(170)] = n
+        for i in range(n):
+            r[K(171, i)] = rng.randrange(1 << (r[K(132)] + 4))
+            r[K(172, i)] = flag(rng)
+    r[K(173)] = flag(rng)
+    r[K(174)] = flag(rng)
+    vui = flag(rng, 0.75)
+    r[K(175)] = vui
+    if vui:
+        if flag(rng):
+            r[K(180)] = 1
+            r[K(181)] = rng.choice([1, 2, 255, 255])
+            r[K(182)], r[K(183)] = rng.randrange(65536), rng.randrange(65536)
+        if flag(rng):
+            r[K(184)] = 1
+            r[K(185)] = flag(rng)
+        if flag(rng):
+            r[K(186)] = 1
+            r[K(187)] = rng.randint(0, 7)
+            r[K(188)] = flag(rng)
+            r[K(189)] = flag(rng)
+            for k in (190, 191, 192):
+                r[K(k)] = rng.randint(0, 255)
+        if flag(rng):
+            r[K(193)] = 1
+            r[K(194)], r[K(195)] = rng.randint(0, 5), rng.randint(0, 5)
+        r[K(196)], r[K(197)], r[K(198)] = flag(rng), flag(rng), flag(rng)
+        if flag(rng, 0.4):
+            r[K(199)] = 1
+            for i in range(4):
+                r[K(200, i)] = ue_sample(rng, 16888)
+        if flag(rng, 0.75):
+            r[K(201)] = 1
+            r[K(202)] = rng.choice([1, 1000, 1001, rng.randint(1, 2 ** 32 - 1), ue_sample(rng, 2 ** 32 - 2) + 1])
+            r[K(203)] = rng.choice([0, 25, 30000, 60000, rng.randrange(2 ** 32)])
+            if flag(rng):
+                r[K(204)] = 1
+                r[K(205)] = ue_sample(rng, 2 ** 32 - 2)
+            if flag(rng, 0.5):
+                r[K(206)] = 1
+                gen_hrd265(rng, r, 0, max_sub)
+        if flag(rng):
+            r[K(207)] = 1
+            r[K(208)], r[K(209)], r[K(210)] = flag(rng), flag(rng), flag(rng)
+            r[K(211)] = ue_sample(rng, 4095)
+            for k in (212, 213, 214, 215):
+                r[K(k)] = rng.randint(0, 16)
+    if flag(rng, 0.3):
+        r[K(176)] = 1
+        r[K(177)] = rng.randint(0, 255)
+    return r
+
+
+def gen_vps(rng):
+    r = {}
+    r[K(101)] = 32
+    r[K(102)] = 0
+    r[K(103)] = rng.randint(1, 7)
+    r[K(104)] = rng.randint(0, 15)
+    r[K(260)], r[K(261)] = flag(rng), flag(rng)
+    r[K(262)] = rng.randint(0, 63)
+    max_sub = rng.choice([0, 0, 1, 2, rng.randint(0, 6)])
+    r[K(105)] = max_sub
+    r[K(106)] = 1 if max_sub == 0 else flag(rng)
+    gen_ptl(rng, r, max_sub)
+    gen_slo(rng, r, max_sub)
+    mli = rng.choice([0, 0, 1, rng.randint(0, 62)])
+    r[K(263)] = mli
+    nls = rng.choice([0, 0, 1, 2, rng.randint(0, 20)])
+    r[K(264)] = nls
+    for i in range(1, nls + 1):
+        for j in range(mli + 1):
+            r[K(265, i * 64 + j)] = flag(rng)
+    if flag(rng, 0.7):
+        r[K(266)] = 1
+        r[K(267)] = rng.choice([1, 1001, rng.randrange(2 ** 32)])
+        r[K(268)] = rng.choice([25, 60000, rng.randrange(2 ** 32)])
+        if flag(rng):
+            r[K(269)] = 1
+            r[K(270)] = ue_sample(rng, 2 ** 32 - 2)
+        nh = rng.choice([0, 0, 1, 2, rng.randint(0, 4)])
+        r[K(271)] = nh
+        for i in range(nh):
+            r[K(272, i)] = ue_sample(rng, 1023)
+            if i > 0:
+                r[K(273, i)] = 1
+            gen_hrd265(rng, r, i + 1, max_sub)
+    r[K(274)] = flag(rng)
+    return r
+
+
 # ---------------------------------------------------------------- AudioSpecificConfig
 def gen_sfi(rng):
     return rng.choice(list(range(13)) + [15, 15, 15])
@@ -275,6 +524,33 @@ def run(ck):
     garb += [bytes(rng.randrange(256) for _ in range(rng.randint(0, 30))) for _ in range(1000 if T else 300)]
     ck.stream("h264_malformed", garb, "C15_h264_bytes", "h264b", "C15_total_ok", nontrivial=lambda c: len(c) > 4,
               sig=sig_of("h264-malformed"), sample=2)
+    # ---- H.265 SPS / VPS
+    n = 8000 if T else 1000
+    recs = [gen_h265(rng) for _ in range(n)]
+    nals = emit_all(ck, "C15_h265_emit", recs)
+    cases = [[rec_val(r), b] for r, b in zip(recs, nals) if b is not None]
+    if len(cases) < n * 0.98:
+        bad = [r for r, b in zip(recs, nals) if b is None]
+        ck.fail("h265_records", "generator", vlib.vs(rec_val(bad[0])), note="%d of %d generated H.265 SPS records not well-ranged" % (len(bad), n))
+    ck.stream("h265_records", cases, "C15_h265_run", "h265", "C15_h265_ok", sig=sig_of("h265-record"))
+    valid = [c[1] for c in cases]
+    garb = [mutate(rng, rng.choice(valid)) for _ in range(8000 if T else 1200)]
+    garb += [bytes([0x42, 0x01]) + bytes(rng.randrange(256) for _ in range(rng.randint(0, 80))) for _ in range(2000 if T else 400)]
+    ck.stream("h265_malformed", garb, "C15_h265_bytes", "h265b", "C15_total_ok", nontrivial=lambda c: len(c) > 4,
+              sig=sig_of("h265-malformed"), sample=2)
+    n = 5000 if T else 700
+    recs = [gen_vps(rng) for _ in range(n)]
+    nals = emit_all(ck, "C15_vps_emit", recs)
+    cases = [[rec_val(r), b] for r, b in zip(recs, nals) if b is not None]
+    if len(cases) < n * 0.98:
+        bad = [r for r, b in zip(recs, nals) if b is None]
+        ck.fail("vps_records", "generator", vlib.vs(rec_val(bad[0])), note="%d of %d generated VPS records not well-ranged" % (len(bad), n))
+    ck.stream("vps_records", cases, "C15_vps_run", "vps", "C15_vps_ok", sig=sig_of("vps-record"))
+    valid = [c[1] for c in cases]
+    garb = [mutate(rng, rng.choice(valid)) for _ in range(5000 if T else 800)]
+    garb += [bytes([0x40, 0x01]) + bytes(rng.randrange(256) for _ in range(rng.randint(0, 60))) for _ in range(1500 if T else 300)]
+    ck.stream("vps_malformed", garb, "C15_vps_bytes", "vpsb", "C15_vps_total_ok", nontrivial=lambda c: len(c) > 4,
+              sig=sig_of("vps-malformed"), sample=2)
     # ---- AudioSpecificConfig
     n = 8000 if T else 1200
     recs = [gen_asc(rng) for _ in range(n)]
